@@ -15,7 +15,7 @@ CLAIMED = {
         "explicit-state enumeration of all dates x step alphabet against a civil-calendar odometer model",
         "DESIGN.md 2/C01"),
     "C02": (
-        "Explicit-state exploration of the real conversion code: (a) every civil date (thorough: all 3,652,061; quick: the fixed windows + one seed-chosen window) with the transition 'next civil day' checked against the successor relation on lunar dates in model order, and the round trip civil->lunar->civil; (b) every lunation of lunar years 0..9999 x candidate days 0..31 for acceptance and lunar->civil->lunar, every non-existent leap month refused; (c) all ordered pairs from a lunation and the next two x days {1,2,15,last}^2 for before/after vs chronological order; LunarDay.next(n) on first/last days. Complete enumeration finds skipped/duplicated/mis-labelled days that no sample of conversions can.",
+        "Explicit-state exploration of the real conversion code: (a) every civil date (thorough: all 3,652,061; quick: the fixed windows + one seed-chosen window) with the transition 'next civil day' checked against the successor relation on lunar dates in model order, and the round trip civil->lunar->civil; (b) every lunation of lunar years 0..9999 x candidate days 0..31 for acceptance and lunar->civil->lunar, every non-existent leap month refused; (c) all ordered pairs from a lunation and the next two x days {1,2,15,last}^2 for before/after vs chronological order; LunarDay.next(n) on first/last days. Complete enumeration finds skipped/duplicated/mis-labelled days that no sample of conversions can. The quick tier also visits the first day, the day before it and the 15th day of every lunation of 0..9999.",
         "Trusted: civil odometer; the lunation table read through the public API and laid out in model order (the table itself is judged by C03/C04/C05). Known findings: the reform-era table defects (AD 8-9, 23-25, 239-240) listed in known_findings.json by exact input.",
         "explicit-state enumeration of all civil dates / all lunar dates with successor-relation and round-trip oracles",
         "DESIGN.md 2/C02"),
@@ -25,17 +25,17 @@ CLAIMED = {
         "explicit-state enumeration of the whole lunation chain with tiling invariants and step-alphabet conformance",
         "DESIGN.md 2/C03"),
     "C04": (
-        "Exhaustive check of every winter-solstice-to-winter-solstice span starting in 27..9997 except 237-239 (thorough: all 9,968; quick: windows): the lunation containing the library's own calendar-making solstice day must be month 11; 12 lunations => no leap, 13 => the first without a major-term day is the leap month and repeats the previous number; every lunation's label is compared with the rule's label and with get_leap_month / get_month_with_leap.",
+        "Exhaustive check of every winter-solstice-to-winter-solstice span starting in 27..9997 except 237-239 (thorough: all 9,968; quick: windows): the lunation containing the library's own calendar-making solstice day must be month 11; 12 lunations => no leap, 13 => the first without a major-term day is the leap month and repeats the previous number; every lunation's label is compared with the rule's label and with get_leap_month / get_month_with_leap. Both tiers enumerate all sui; the 12 major terms of every year are also addressed with out-of-range indices (i-24 from the next year, i+24 from the previous one).",
         "Relational oracle: the library's own new-moon days and term days (judged astronomically in C05); the rule is the classical no-major-term rule. Years before 27 and the sui starting 237-239 are outside the property.",
         "exhaustive enumeration of all sui with a rule-derived labelling compared to the implementation's labels",
         "DESIGN.md 2/C04"),
     "C05": (
-        "Four bounded spaces, each enumerated completely. (1) all 6,024 solar terms and 3,110 lunations of 1900-2150 against an independent theory typed from Meeus (ch. 25 apparent solar longitude + Espenak-Meeus delta-T: tolerance 15 min = the theory's 0.01 deg; ch. 49 new-moon series with 14 planetary terms, compared in TT: tolerance 1 min), and all lunations of -1000..6000 (quick 1000..4000) within 3 min; (2) every term of 1961-9999 and every lunation of lunar years 1961-8000 (quick: windows): calendar-making day = UTC+8 civil day of the precisely solved instant (the midnight guard band); (3) inverse-solver residuals for every target k*pi/12 and k*2pi over +-10,000 years (quick: every 10th) < 1 arcsec; (4) delta-T second differences on a 0.05-year grid over -4000..10000 (< 6 s).",
+        "Four bounded spaces, each enumerated completely. (1) all 6,024 solar terms and 3,110 lunations of 1900-2150 against an independent theory typed from Meeus (ch. 25 apparent solar longitude + Espenak-Meeus delta-T: tolerance 15 min = the theory's 0.01 deg; ch. 49 new-moon series with 14 planetary terms, compared in TT: tolerance 1 min), and all lunations of -1000..6000 (quick 1000..4000) within 3 min; (2) every term of 1961-9999 and every lunation of lunar years 1961-8000 (quick: windows): calendar-making day = UTC+8 civil day of the precisely solved instant (the midnight guard band); (3) inverse-solver residuals for every target k*pi/12 and k*2pi over +-10,000 years (quick: every 10th) < 1 arcsec; (4) delta-T second differences on a 0.05-year grid over -4000..10000 (< 6 s). (1d) the TT solution of every term target of -2000..6000 against the independent longitude; (1e) all 239,976 terms of 1..9999 as reported by SolarTerm::get_julian_day equal the TT solution for the term's own target converted with the library's TT-UT (1 s) and agree with the independent longitude within a tolerance growing to hours beyond AD 6000.",
         "Sub-space 1 is the only independent one; a coefficient perturbation moving instants by less than the tolerance and flipping no civil day is out of reach offline (stated in the evidence). Known finding: the lunar solver's residual exceeds 1 arcsec (up to 57) beyond about AD 6180 / before 2530 BC.",
         "exhaustive enumeration of all terms/lunations of bounded eras against an independent ephemeris model + self-consistency sweeps",
         "DESIGN.md 2/C05"),
     "C13": (
-        "Every civil year 1..9999: 2 half-years, 4 seasons, 12 months, nesting both ways; every one of the 119,988 months lists exactly the odometer's dates of that month, each listed date's day-of-year equals its position in the year's lists, the lists sum to the year's day count. Every lunar year 0..9999: month list = lunation table slice; every lunation lists days 1..=len on consecutive civil days. Hour lists (LunarDay 13 slots, SixtyCycleDay 12 slots with pillars) on 4 x 400 consecutive days; sexagenary months of all Lichun-years (quick: windows) list exactly Jie day .. day before the next Jie.",
+        "Every civil year 1..9999: 2 half-years, 4 seasons, 12 months, nesting both ways; every one of the 119,988 months lists exactly the odometer's dates of that month, each listed date's day-of-year equals its position in the year's lists, the lists sum to the year's day count. Every lunar year 0..9999: month list = lunation table slice; every lunation lists days 1..=len on consecutive civil days. Hour lists (LunarDay 13 slots, SixtyCycleDay 12 slots with pillars) on 4 x 400 consecutive days; sexagenary months of all Lichun-years (quick: windows) list exactly Jie day .. day before the next Jie. Listed parts point back to their container (get_solar_month, get_solar_year, get_lunar_year, get_lunar_month, get_sixty_cycle_month); lunar months have 29 or 30 days and their listed days convert back to themselves.",
         "Oracles: odometer, lunation table (model order), the library's own Jie days.",
         "exhaustive enumeration of all containers with list-equals-model oracles",
         "DESIGN.md 2/C13"),
@@ -50,7 +50,7 @@ CLAIMED = {
         "explicit-state enumeration of all dates against series re-derived from term table + day pillar",
         "DESIGN.md 2/C15"),
     "C16": (
-        "Fully enumerated birth lattices: every Jie of the year windows (quick 1573-75, 1581-83, 2019-25; thorough 2-6, 1570-1590, 1890-2110, 9985-87) x 16 offsets (0, +-1 s, +-59 s, +-1 min, +-1 h, +-1 d, +-3 d, +-15 d, +7 d 3 h) x 2 genders x 4 strategies; births on days 28-31 / 1 of every month (every day of October 1582) at 23:59:59, 00:00:00, 12:00:00; a 997 s lattice across whole Jie-to-Jie spans; one birth per day of 1572-1582. Oracle: direction from year-stem polarity and gender, governing Jie from the term table, documented conversion rates per strategy, end = calendar addition via ordinals, 0 <= end - birth <= 11 y; decade fortunes (pillar = month pillar +-(k+1), ages 10 apart, years) and yearly fortunes (hour pillar +- age, year) incl. next(n).",
+        "Fully enumerated birth lattices: every Jie of the year windows (quick 1573-75, 1581-83, 2019-25; thorough 2-6, 1570-1590, 1890-2110, 9985-87) x 16 offsets (0, +-1 s, +-59 s, +-1 min, +-1 h, +-1 d, +-3 d, +-15 d, +7 d 3 h) x 2 genders x 4 strategies; births on days 28-31 / 1 of every month (every day of October 1582) at 23:59:59, 00:00:00, 12:00:00; a 997 s lattice across whole Jie-to-Jie spans; one birth per day of 1572-1582. Oracle: direction from year-stem polarity and gender, governing Jie from the term table, documented conversion rates per strategy, end = calendar addition via ordinals, 0 <= end - birth <= 11 y; decade fortunes (pillar = month pillar +-(k+1), ages 10 apart, years) and yearly fortunes (hour pillar +- age, year) incl. next(n). Plus births (one per day of the 11 years before a century year) whose limit ends in 1 Feb..15 Mar of that century year (quick 7 century years, thorough all 99).",
         "'Random birth instants' of the property are replaced by these lattices. When October 1582 is the target month both readings of the day (count / number) are accepted. Limits ending after 9999 are outside the claim.",
         "exhaustive enumeration of birth-instant lattices x genders x strategies against a term-table + calendar-arithmetic model",
         "DESIGN.md 2/C16"),
@@ -65,47 +65,47 @@ CLAIMED = {
         "complete enumeration of all table keys with independent re-decoding of the packed tables",
         "DESIGN.md 2/C18"),
     "C19": (
-        "Complete finite enumeration (10 stems, 12 branches, 10x10, 10x12, 12x12, 5 elements, 9 directions, 60 pillars, 28 mansions, 9+12+6 stars, 366 month-days, 13 lunar months, 1440 palace-sign inputs): every attribute compared with a first-principles encoding typed by name (generation/overcoming cycle, the five direction rhymes, hidden stems, ten-star by relation x polarity, growth stages, five/six combinations, clashes, harms as involutions, Nayin, Xun and void, zodiac, sign boundaries, daily/monthly foetus spirit, mansion luminary/animal/land/luck, star colours/elements/directions, own sign and body sign by the Five-Tigers rule).",
+        "Complete finite enumeration (10 stems, 12 branches, 10x10, 10x12, 12x12, 5 elements, 9 directions, 60 pillars, 28 mansions, 9+12+6 stars, 366 month-days, 13 lunar months, 1440 palace-sign inputs): every attribute compared with a first-principles encoding typed by name (generation/overcoming cycle, the five direction rhymes, hidden stems, ten-star by relation x polarity, growth stages, five/six combinations, clashes, harms as involutions, Nayin, Xun and void, zodiac, sign boundaries, daily/monthly foetus spirit, mansion luminary/animal/land/luck, star colours/elements/directions, own sign and body sign by the Five-Tigers rule). The printed foetus-spirit name is composed from place / side / direction; the LunarDay / SixtyCycleDay routes to it are followed on 60 consecutive days.",
         "The encoding is the trusted base. For 戊戌 己亥 戊申 of the daily foetus-spirit table both printed variants are accepted; the body sign is only required to be a Five-Tigers-legal pillar.",
         "complete enumeration of finite attribute tables against an independent encoding",
         "DESIGN.md 2/C19"),
     "C20": (
-        "Civil festivals: every civil date of 1900..2100 (quick 1925..2035) by date, every (year, index 0..11) with next(n), n in -25..25. Lunar festivals: every lunar year (quick: windows + 1925..2035) x indices 0..14: day vs the model (fixed lunar dates, Qingming / winter-solstice term days, New Year's Eve = last day of the year), the day's own lookup returns it or the earlier-listed one, next(n) for 11 step counts; every lunar date of 1900..2100 (quick 1990..2030) by date. Legal holidays: all records framed independently (13 chars): real date, strictly increasing, offset target is a rest day of the table, lookup returns exactly the record, membership of every civil date 2000..2030, next(n) for every n from two before the table start to two past its end (quick: 12 step counts incl. both ends), pair law.",
+        "Civil festivals: every civil date of 1900..2100 (quick 1925..2035) by date, every (year, index 0..11) with next(n), n in -25..25. Lunar festivals: every lunar year (quick: windows + 1925..2035) x indices 0..14: day vs the model (fixed lunar dates, Qingming / winter-solstice term days, New Year's Eve = last day of the year), the day's own lookup returns it or the earlier-listed one, next(n) for 11 step counts; every lunar date of 1900..2100 (quick 1990..2030) by date. Legal holidays: all records framed independently (13 chars): real date, strictly increasing, offset target is a rest day of the table, lookup returns exactly the record, membership of every civil date 2000..2030, next(n) for every n from two before the table start to two past its end (quick: 12 step counts incl. both ends), pair law. Festivals also jump to fixed far targets (|n| up to 130,000, both signs); holiday membership also of every date whose 8 digits occur anywhere in the packed table text and of the first / last day of every month of 0001..9999.",
         "Lunar festivals of the reform-era years 7-26 / 235-241 are left to C02/C03.",
         "exhaustive enumeration of dates / indices / table records with independently framed records and table-derived festival dates",
         "DESIGN.md 2/C20"),
     "C06": (
-        "Explicit-state exploration against the library's own term table (240,024 terms, years 0..10000): (a) every adjacent pair strictly increasing 14.6-15.8 d apart; (b) from_index(y,i) for i in -30..54, from_name, Jie/Qi parity and next(n), n in -50..50, for every year x 24 terms equal the table entry n places away; (c) every civil date (thorough: all; quick: windows): get_term_day / get_term = latest term whose day <= date with index = days elapsed; (d) every term's second-rounded instant -1 s/+0/+1 s and two instants of every window date for SolarTime::get_term.",
+        "Explicit-state exploration against the library's own term table (240,024 terms, years 0..10000): (a) every adjacent pair strictly increasing 14.6-15.8 d apart; (b) from_index(y,i) for i in -30..54, from_name, Jie/Qi parity and next(n), n in -50..50, for every year x 24 terms equal the table entry n places away; (c) every civil date (thorough: all; quick: windows): get_term_day / get_term = latest term whose day <= date with index = days elapsed; (d) every term's second-rounded instant -1 s/+0/+1 s and two instants of every window date for SolarTime::get_term. The quick tier also checks the day of every term of 1..9999, the day before and the day after.",
         "A term's start is the instant/day the library reports for it (judged astronomically in C05). Days of January 0001 before the first term day are outside the claim (governing term in 1 BC).",
         "explicit-state enumeration of all terms / dates / boundary instants against the global term sequence",
         "DESIGN.md 2/C06"),
     "C07": (
-        "Every civil date (thorough: all 3,652,061; quick: windows) x five routes: LunarDay pillar, SixtyCycleDay pillar, SolarDay/JulianDay/LunarDay weekday, compared with the closed forms (JDN+49) mod 60 and (JDN+1) mod 7 of the odometer's day number; since every date is compared with a function of the day number, every adjacent pair (month/year ends, 1582 cut-over, all lunar month boundaries) is covered.",
+        "Every civil date (thorough: all 3,652,061; quick: windows) x five routes: LunarDay pillar, SixtyCycleDay pillar, SolarDay/JulianDay/LunarDay weekday, compared with the closed forms (JDN+49) mod 60 and (JDN+1) mod 7 of the odometer's day number; since every date is compared with a function of the day number, every adjacent pair (month/year ends, 1582 cut-over, all lunar month boundaries) is covered. Also: the weekday of four instants inside each day, SixtyCycleDay::from_solar_day / LunarDay::get_sixty_cycle_day on every fifth date, and (quick) every 11th date of the whole range.",
         "Trusted: odometer JDN. Known finding: the 160 reform-era dates whose lunar label is wrong (C02) inherit a wrong pillar/weekday through the lunar routes.",
         "explicit-state enumeration of all dates x routes against closed forms of the day number",
         "DESIGN.md 2/C07"),
     "C08": (
-        "Day view: every civil date from the Lichun day of year 1 to 9998-12-31 (thorough all, quick windows): year pillar (Y-4) mod 60 with Y switching on the Lichun day, month branch counted from the Jie days of the library's term table, month stem by Five Tigers typed from the rhyme, index in year; on every Jie day the month object's first day / next / previous. Time view: all 119,976 Jie instants -1 s/+0/+1 s plus four hours of every window date. All sexagenary years -1..9999: year pillar, first month, 12 months by list and by index.",
+        "Day view: every civil date from the Lichun day of year 1 to 9998-12-31 (thorough all, quick windows): year pillar (Y-4) mod 60 with Y switching on the Lichun day, month branch counted from the Jie days of the library's term table, month stem by Five Tigers typed from the rhyme, index in year; on every Jie day the month object's first day / next / previous. Time view: all 119,976 Jie instants -1 s/+0/+1 s plus four hours of every window date. All sexagenary years -1..9999: year pillar, first month, 12 months by list and by index. Three further public routes (SixtyCycleDay::from_solar_day, LunarDay::get_sixty_cycle_day, the deprecated LunarDay / LunarHour getters, LunarHour::get_sixty_cycle_hour); month objects stepped by 19 step counts incl. negative multiples of 12; the quick tier visits every Jie day of all years and the day before.",
         "Jie days/instants are the library's own (C05/C06 judge them).",
         "explicit-state enumeration of all dates / all Jie boundary instants against term-table + pillar algebra model",
         "DESIGN.md 2/C08"),
     "C09": (
-        "(a) 3 eras x 60 consecutive days x 24 hours x 2 clock times: hour branch/stem (Five Rats from the day the hour belongs to), index in day, 23:00 day roll, default and LunarSect2 providers; (b) every hour of every date of the windows: eight characters = year, month, day(+1 at 23h), hour pillars from the model; (c) inverse search on every double-hour of every day of fully enumerated years (quick 1 year x 2 ranges; thorough 5 eras x 2 years x 9 ranges [y-60k, y+60k']): every returned instant recomputes to the same characters, and a double-hour containing no Jie instant contains at least one returned instant.",
+        "(a) 3 eras x 60 consecutive days x 24 hours x 2 clock times: hour branch/stem (Five Rats from the day the hour belongs to), index in day, 23:00 day roll, default and LunarSect2 providers; (b) every hour of every date of the windows: eight characters = year, month, day(+1 at 23h), hour pillars from the model; (c) inverse search on every double-hour of every day of fully enumerated years (quick 1 year x 2 ranges; thorough 5 eras x 2 years x 9 ranges [y-60k, y+60k']): every returned instant recomputes to the same characters, and a double-hour containing no Jie instant contains at least one returned instant. Also Jie-instant probes, the deprecated LunarHour getters on every fifth hour, stepping of a LunarHour whose lazy views are filled, searches for characters that never occur, January windows of the eras whose Xiaohan falls in December.",
         "Double-hours containing a Jie instant are skipped as the property states. Known finding: instants of the 160 reform-era dates (C02) inherit the wrong lunar day.",
         "explicit-state enumeration of hour lattices and exhaustive inverse-search conformance on enumerated day windows",
         "DESIGN.md 2/C09"),
     "C11": (
-        "42 cyclic types: every element x 15 step counts (0, +-1, +-2, +-(size-1), +-size, +-(size+1), +-(2size+1), +-1000003) x all ordered pairs (pair law next(a).next(b) = next(a+b)), from_index over -2size..3size, from_name of every published name (least index for repeated names), and every name of every other cycle plus near misses must be refused. Linear units (solar year/half/season/month, lunar year, sexagenary year/month incl. year -1, Julian day, solar/lunar/sexagenary day, solar time, sexagenary hour, lunar hour in 2 h steps): ordinal models, all values for the cheap units (quick: thinned), boundary lattices for day/instant units, all step pairs from per-unit alphabets with results kept in range.",
+        "42 cyclic types: every element x 23 step counts (0, +-1, +-2, +-(size-1), +-size, +-(size+1), +-(2size+1), +-1000003) x all ordered pairs (pair law next(a).next(b) = next(a+b)), from_index over -2size..3size, from_name of every published name (least index for repeated names), and every name of every other cycle plus near misses must be refused. Linear units (solar year/half/season/month, lunar year, sexagenary year/month incl. year -1, Julian day, solar/lunar/sexagenary day, solar time, sexagenary hour, lunar hour in 2 h steps): ordinal models, all values for the cheap units (quick: thinned), boundary lattices for day/instant units, all step pairs from per-unit alphabets with results kept in range. Step counts now 23 (incl. beyond 2^31, 2^32, 2^40); recombined names refused; further units: multi-decade lunar-month steps, raw out-of-range indices of SolarTerm / SixtyCycleMonth::from_index, LunarWeek / SolarWeek on 10 lunar / 4 civil years.",
         "Lunar months, terms, weeks and festivals are stepped exhaustively in C03, C06, C14, C20; name contents are judged by C19. Fixed: SixtyCycleMonth year carry.",
         "exhaustive enumeration of cycle elements x step-count pairs against Z/size; ordinal-model conformance for linear units",
         "DESIGN.md 2/C11"),
     "C12": (
-        "Instant lattice {00:00:00, 00:00:01, 11:59:59, 12:00:00, 23:59:58, 23:59:59} of every civil day (thorough) or of month-boundary days of the windows, of every 25th year and Sept/Oct 1582 (quick) x next(n) for 31 step sizes up to +-10^9 s, subtract, before/after; instant -> Julian date -> instant for those and for every second of 6 chosen days; fractional Julian dates +-1 s in 0.1 s steps around hh:59:59 carry points (all 24 on boundary days, 3 on other days) must give a valid instant within 0.5 s.",
+        "Instant lattice {00:00:00, 00:00:01, 11:59:59, 12:00:00, 23:59:58, 23:59:59} of every civil day (thorough) or of month-boundary days of the windows, of every 25th year and Sept/Oct 1582 (quick) x next(n) for 31 step sizes up to +-10^9 s, subtract, before/after; instant -> Julian date -> instant for those and for every second of 6 chosen days; fractional Julian dates +-1 s in 0.1 s steps around hh:59:59 carry points (all 24 on boundary days, 3 on other days) must give a valid instant within 0.5 s. JulianDay::get_solar_day of those fractional dates must name the containing day or the day of the rounded instant.",
         "Oracle: instant ordinal = 86400 * odometer day + second of day. 'Random instants' of the property are replaced by these fully enumerated lattices.",
         "explicit-state enumeration of an instant lattice x step alphabet against an instant-ordinal model",
         "DESIGN.md 2/C12"),
     "C10": (
-        "Four explorers. (1) Explicit-state BFS over the real process-wide memo: state = canonical memo snapshot + poison flags (read through the verif hooks), transition = one request of an alphabet built to collide under every plausible keying plus refused requests; run to a fixpoint on the core alphabet (quick 256 states / thorough 4096) and to depth 2/3 on the full alphabet incl. walkers and the provider locks; every answer must equal the cold answer and the cache-free constructor. (2) Value-level lazy fields: every sequence of <= 3 observers on LunarDay/LunarHour values vs a fresh value. (3) generic histories: 576 / 3,200 (date, observer) requests on a collision-prone grid, cold answer of each from its own fresh OS process, then one in-process history containing every ordered pair adjacently. (4) loom (DPOR) over the repository's own source files compiled against loom's Mutex/lazy_static: 2-4 threads x 1-3 requests on colliding keys, nested provider->memo locks and Err-refusals, preemption bounds 0,1,2,(3), unbounded for the small harnesses; every complete schedule's answers must equal the cold answers; loom reports deadlocks.",
+        "Four explorers. (1) Explicit-state BFS over the real process-wide memo: state = canonical memo snapshot + poison flags (read through the verif hooks), transition = one request of an alphabet built to collide under every plausible keying plus refused requests; run to a fixpoint on the core alphabet (quick 256 states / thorough 4096) and to depth 2/3 on the full alphabet incl. walkers and the provider locks; every answer must equal the cold answer and the cache-free constructor. (2) Value-level lazy fields: every sequence of <= 3 of 18 / 15 observers on LunarDay/LunarHour values (incl. equality and order against fresh values, the day reached through an hour, hours of Jie days) vs a fresh value. (3) generic histories: 576 / 3,200 (date, observer) requests on a collision-prone grid, cold answer of each from its own fresh OS process, then one in-process history containing every ordered pair adjacently. (4) loom (DPOR) over the repository's own source files compiled against loom's Mutex/lazy_static: 2-4 threads x 1-3 requests on colliding keys, nested provider->memo locks and Err-refusals, preemption bounds 0,1,2,(3), unbounded for the small harnesses; every complete schedule's answers must equal the cold answers; loom reports deadlocks.",
         "The '16 OS threads' clause is replaced by exhaustive loom schedules of small harnesses (a free-running stress run would be sampling). loom cannot unwind through a held loom MutexGuard, so panicking refusals are decided by the sequential explorer on std's Mutex (which has poisoning); data races on the !Sync lazy fields are excluded by the compiler (no unsafe).",
         "explicit-state BFS over memo states against cold answers + loom bounded-preemption schedule exploration of the real source",
         "DESIGN.md 2/C10"),
